@@ -277,7 +277,8 @@ def add_command(d, rng, pos=None):
         if k < 7:
             outs.append(pre + name + ".b")
         if k in (6, 8, 9):
-            outs.append("<%s>" % name)
+            # (a virtual output may stand anywhere in the list: the command's value has one record per declared output)
+            outs.insert(rng.below(len(outs) + 1), "<%s>" % name)
         if k == 10:
             outs = ["<%s>" % name]
         c.update(tool="shell", inputs=ins, outputs=outs)
@@ -617,8 +618,21 @@ def run_history(exe, base, idx, rng, thorough):
                 w.stats["fs_edits"] += 1
         elif k < 38 and files_out:
             o = rng.choice(files_out)
-            w.write(o, 5 + rng.below(1000))
-            op = {"op": "overwrite-output", "node": o}
+            links = [x for x in d.outputs() if d.kind(x, prod) == "link" and os.path.islink(os.path.join(w.d, x))]
+            if links and rng.chance(1, 3):
+                # the link is replaced by another link whose target has the same length (same st_size)
+                o = rng.choice(links)
+                p = os.path.join(w.d, o)
+                old = os.readlink(p)
+                new = old[:-1] + ("y" if old[-1:] != "y" else "z")
+                os.unlink(p)
+                os.symlink(new, p)
+                t = (BASE_T + w.tick()) * 10**9
+                os.utime(p, ns=(t, t), follow_symlinks=False)
+                op = {"op": "retarget-link", "node": o, "to": new}
+            else:
+                w.write(o, 5 + rng.below(1000))
+                op = {"op": "overwrite-output", "node": o}
             w.stats["fs_edits"] += 1
         elif k < 45 and len(d.cmds) < 10:
             c = add_command(d, rng, rng.below(len(d.cmds) + 1) if rng.chance(1, 2) else None)
@@ -726,7 +740,7 @@ def run_history(exe, base, idx, rng, thorough):
             continue
         if op is not None:
             w.trace.append(op)
-            if op["op"] not in ("edit-source", "delete-output", "overwrite-output"):
+            if op["op"] not in ("edit-source", "delete-output", "overwrite-output", "retarget-link"):
                 w.stats["desc_edits"] += 1
         # build (sometimes two edits accumulate before the next build)
         if rng.chance(3, 4):
